@@ -49,6 +49,7 @@ type c13Scenario struct {
 	BP        int    `json:"breakpoints"` // 0 nil, 1 non-nil never reached, 2 reached
 	Canceller int    `json:"canceller"`   // 0 absent, 1 cancels before the call, 2 concurrent
 	Deadline  bool   `json:"deadline_context"`
+	Runs      int    `json:"runs,omitempty"` // number of consecutive Run calls by the caller (0 = 1)
 	Sched     []int  `json:"schedule,omitempty"`
 }
 
@@ -99,6 +100,7 @@ type c13Outcome struct {
 	final     z80.States
 	halt      bool
 	pcMem     uint8
+	firstErrs []error
 }
 
 func (o *c13Outcome) sig() string {
@@ -166,6 +168,12 @@ func c13Body(bg *[65536]uint8, sc *c13Scenario, world **c13World) func(s *sched.
 		}
 		caller = s.Go("caller", func() {
 			err := cpu.Run(ctx)
+			for i := 1; i < sc.Runs; i++ {
+				// repeated calls on the same CPU: a flag, goroutine or context kept from the
+				// previous call must not leak into this one
+				out.firstErrs = append(out.firstErrs, err)
+				err = cpu.Run(ctx)
+			}
 			out.err = err
 			out.returned = true
 			out.reads = callerReads
@@ -214,6 +222,14 @@ func c13Judge(bg *[65536]uint8, sc *c13Scenario, x *sched.Scheduler, w *c13World
 	// leak: Run returned but a thread it spawned can never finish
 	if un := x.Unfinished(); len(un) > 0 {
 		d = append(d, fmt.Sprintf("Run returned (%v) and left goroutine(s) behind that can never finish: %v", out.err, un))
+	}
+	for i, e := range out.firstErrs {
+		if e != nil && e != z80.ErrBreakPoint && e != context.Canceled && e != context.DeadlineExceeded {
+			d = append(d, fmt.Sprintf("Run call #%d returned an unexpected error: %v", i+1, e))
+		}
+		if (e == context.Canceled || e == context.DeadlineExceeded) && sc.Canceller == 0 {
+			d = append(d, fmt.Sprintf("Run call #%d returned %v although nothing ever cancels the context", i+1, e))
+		}
 	}
 	// error value
 	switch {
@@ -313,6 +329,12 @@ func checkC13(c *Ctx) {
 						continue // never returns and nothing obliges it to
 					}
 					scenarios = append(scenarios, c13Scenario{Prog: pi, Name: progs[pi].name, BP: bp, Canceller: can, Deadline: dl})
+					if progs[pi].terminating && bp == 0 && !dl {
+						scenarios = append(scenarios, c13Scenario{Prog: pi, Name: progs[pi].name + " (Run x2)", BP: bp, Canceller: can, Runs: 2})
+						if !c.Quick() {
+							scenarios = append(scenarios, c13Scenario{Prog: pi, Name: progs[pi].name + " (Run x3)", BP: bp, Canceller: can, Runs: 3})
+						}
+					}
 				}
 			}
 		}
